@@ -38,16 +38,21 @@ Theorem C19_no_underflow_panic : forall dbg pk ops,
 Proof. exact no_underflow_panic. Qed.
 
 (* ---- (2) transactions the wallet builds ----
-   Full statement (REFUTED on the pinned code, four ways, see below):
+   Full statement (REFUTED on the code at /repo HEAD, two ways, see below):
 
      forall dbg pk ops w order keys pays fee latest gp w' t,
-       ops_u64 ops -> run dbg (init pk) ops = Ok w ->
+       ops_u64 ops -> (forall o, In o ops -> op_ns pk o) -> run dbg (init pk) ops = Ok w ->
        enumerates order (w_unspent w) = true ->
        create dbg w order keys pays fee latest gp = Ok (w', Built t) ->
        NoDup (map slip_key (bt_from t)) /\
        sum_amt (bt_to t) <= sum_amt (bt_from t) /\
        (forall i, In i (bt_from t) -> 0 < s_amt i -> In (slip_key i) (w_unspent w)) /\
        sum_amt (bt_from t) = sum_amt (bt_to t) + fee_eff w fee
+
+   Four more defects of this clause were found with this package and have been
+   repaired in /repo (2da67eb u64 wrap of payments + fee, 953d536 stale coordinates
+   after an unwind, bc2e87e balance snapshot vs staking set, e604c7e NFT mint input);
+   the first three are regression Examples below, the model follows the repaired code.
 *)
 
 (* window edge: slips "about to be rebroadcast" are skipped by generate_slips but
@@ -59,14 +64,6 @@ Theorem C19_built_tx_ok_refuted_edge :
     sum_amt (bt_from t) < sum_amt (bt_to t).
 Proof. exact refuted_edge. Qed.
 
-(* total_payment + fee wraps in the release profile *)
-Theorem C19_built_tx_ok_refuted_wrap :
-  exists ops w order keys pays fee latest gp w' t,
-    run false (init 1) ops = Ok w /\ enumerates order (w_unspent w) = true /\
-    create false w order keys pays fee latest gp = Ok (w', Built t) /\
-    sum_amt (bt_from t) < sum_amt (bt_to t).
-Proof. exact refuted_wrap. Qed.
-
 (* more than 255 selected inputs: add_from_slip silently drops the rest, which the
    wallet has nevertheless marked as spent *)
 Theorem C19_built_tx_ok_refuted_cap :
@@ -76,33 +73,11 @@ Theorem C19_built_tx_ok_refuted_cap :
     sum_amt (bt_from t) < sum_amt (bt_to t).
 Proof. exact refuted_cap. Qed.
 
-(* unwinding a block re-adds the inputs it spent under the SPENDING block's id and
-   transaction index; a transaction built afterwards references an output that is
-   not one the wallet lists as unspent (and does not exist in the ledger) *)
-Theorem C19_built_tx_ok_refuted_stale :
-  exists ops w order keys pays fee latest gp w' t i,
-    run true (init 1) ops = Ok w /\ enumerates order (w_unspent w) = true /\
-    create true w order keys pays fee latest gp = Ok (w', Built t) /\
-    In i (bt_from t) /\ 0 < s_amt i /\ ~ In (slip_key i) (w_unspent w).
-Proof. exact refuted_stale. Qed.
-
-(* not a defect of create_with_multiple_payments but of the same clause ("never reference the
-   same output twice"): update_from_balance_snapshot does not clear staking_slips and files
-   every slip, BlockStake included, under unspent_slips; create_staking_transaction then takes
-   the staked output from both sets *)
-Theorem C19_staking_tx_refuted_snapshot :
-  exists ops w sorder uorder amount unlocked lastvalid w' t,
-    ops_u64 ops /\ run true (init 1) ops = Ok w /\
-    enumerates sorder (w_staking w) = true /\ enumerates uorder (w_unspent w) = true /\
-    create_staking true w sorder uorder amount unlocked lastvalid = Ok (w', Some t) /\
-    ~ NoDup (map s_key (bt_from t)).
-Proof. exact refuted_snapshot_staking. Qed.
-
-(* outside the four classes ([Known_C19], decidable, defined on the call) every
-   built transaction is fine; [Exact w] holds for every state reachable with
-   overflow checks, and for every state whose balance did not wrap *)
+(* outside the two classes ([Known_C19], decidable, defined on the call) every built
+   transaction is fine, in either profile; [Exact w] and [NoStale w] hold for the
+   reachable states (next three theorems) *)
 Theorem C19_built_tx_ok : forall dbg w order keys pays fee latest gp w' t,
-  Exact w -> enumerates order (w_unspent w) = true ->
+  Exact w -> NoStale w -> enumerates order (w_unspent w) = true ->
   Known_C19 w order pays fee latest gp = false ->
   create dbg w order keys pays fee latest gp = Ok (w', Built t) ->
   NoDup (map slip_key (bt_from t)) /\
@@ -110,6 +85,14 @@ Theorem C19_built_tx_ok : forall dbg w order keys pays fee latest gp w' t,
   (forall i, In i (bt_from t) -> 0 < s_amt i -> In (slip_key i) (w_unspent w)) /\
   ((length pays <= 254)%nat -> sum_amt (bt_from t) = sum_amt (bt_to t) + fee_eff w fee).
 Proof. exact built_tx_ok. Qed.
+
+(* no stored slip has coordinates that disagree with its key, for every operation
+   sequence whose callers respect [op_ns]: add_slip is given the slip's own block id /
+   index and the wallet's key, wound blocks are as Block::generate leaves them, snapshot
+   slips carry their own key.  NOTHING is required of unwound blocks (953d536) *)
+Theorem C19_no_stale : forall dbg pk ops w,
+  (forall o, In o ops -> op_ns pk o) -> run dbg (init pk) ops = Ok w -> NoStale w.
+Proof. exact no_stale_reachable. Qed.
 
 Theorem C19_reachable_exact : forall pk ops w,
   ops_u64 ops -> run true (init pk) ops = Ok w -> Exact w.
@@ -143,6 +126,27 @@ Theorem C19_no_stale_without_reorg : forall dbg pk gp ops st,
   forall k, stale pk (w_slips (c_w st)) k = false.
 Proof. exact no_stale_on_chain. Qed.
 
+(* ---- regressions of the repaired defects ---- *)
+Example C19_regress_wrap : forall dbg,
+  exists w, run dbg (init 1) [OWind (pay_block 1 1 1000) 5] = Ok w /\
+    create dbg w [mkK 1 1 0 0 1000 0] [2] [18446744073709551615] 2 1 5 = Ok (w, ErrInvalidInput) /\
+    create dbg w [mkK 1 1 0 0 1000 0] [2; 3] [18446744073709551615; 1] 0 1 5 = Ok (w, ErrInvalidInput).
+Proof. exact regress_wrap. Qed.
+
+Example C19_regress_stale :
+  exists w w' t, run true (init 1) wit_stale_ops = Ok w /\ NoStale w /\
+    create true w [mkK 1 1 0 0 1000 0] [2] [400] 0 2 5 = Ok (w', Built t) /\
+    map slip_key (bt_from t) = [mkK 1 1 0 0 1000 0] /\ w_unspent w = [mkK 1 1 0 0 1000 0] /\
+    sum_amt (bt_from t) = 1000 /\ sum_amt (bt_to t) = 1000.
+Proof. exact regress_stale. Qed.
+
+Example C19_regress_snapshot_staking :
+  exists w w' t, ops_u64 wit_snapshot_ops /\ run true (init 1) wit_snapshot_ops = Ok w /\
+    w_staking w = [mkK 1 4 2 1 645 8] /\ w_unspent w = [] /\ w_balance w = 0 /\
+    create_staking true w [mkK 1 4 2 1 645 8] [] 600 10 0 = Ok (w', Some t) /\
+    map s_key (bt_from t) = [mkK 1 4 2 1 645 8].
+Proof. exact regress_snapshot_staking. Qed.
+
 (* ---- non-vacuity ---- *)
 Example C19_example_reach :
   exists w, run true (init 1) ex_ops = Ok w /\ w_balance w = 1100 /\ length (w_unspent w) = 2%nat.
@@ -165,11 +169,9 @@ Print Assumptions C19_balance_is_sum_mod.
 Print Assumptions C19_balance_is_sum_bounded.
 Print Assumptions C19_no_underflow_panic.
 Print Assumptions C19_built_tx_ok_refuted_edge.
-Print Assumptions C19_built_tx_ok_refuted_wrap.
 Print Assumptions C19_built_tx_ok_refuted_cap.
-Print Assumptions C19_built_tx_ok_refuted_stale.
-Print Assumptions C19_staking_tx_refuted_snapshot.
 Print Assumptions C19_built_tx_ok.
+Print Assumptions C19_no_stale.
 Print Assumptions C19_reachable_exact.
 Print Assumptions C19_reachable_exact_release.
 Print Assumptions C19_matches_ledger.
